@@ -102,6 +102,19 @@ def branch_inputs(rng, tier):
     for df in (5, 21):
         for v in range(rng.randrange(16), 8192, 16):
             b = rnd_frame(rng, df); setf(b, 19, 13, v); fr.append(b)
+    # ... and always the codes at the ends of each range: identity 0000 and 7777 with the X bit either way, altitude codes
+    # that are all zero / only Q / only M / all ones, the codes around 0 ft
+    for df in (5, 21):
+        for v in (0x0000, 0x0040, 0x1fff, 0x1fbf, 0x0001, 0x1000):
+            b = rnd_frame(rng, df); setf(b, 19, 13, v); fr.append(b)
+    for v in (0x0000, 0x0040, 0x1fff, 0x1fbf):
+        b = es_frame(rng, rng.choice((17, 18)), 28); setf(b, 32 + 11, 13, v); fr.append(b)
+    for df in (0, 4, 16, 20):
+        for v in (0x0000, 0x0010, 0x0040, 0x1fff, 0x0011, 0x0410, 0x0418, 0x0419, 0x041a):
+            b = rnd_frame(rng, df); setf(b, 19, 13, v); fr.append(b)
+    for tc in (9, 18, 20, 22):
+        for v in (0x000, 0x010, 0xfff, 0x20a, 0x20b, 0x038, 0x039, 0x03a, 0x030):      # (0x20a: Gillham 0 ft; 0x038: 25 N - 1000 = 0)
+            b = es_frame(rng, rng.choice((17, 18)), tc); setf(b, 40, 12, v); fr.append(b)
     return gen.as_inputs(fr)
 
 
